@@ -186,8 +186,8 @@ Print Assumptions C16_header_size_table_map.
 
 (* ---- non-vacuity ---- *)
 
-Definition ex_cfg : cfg := {| c_crc := true; c_v2 := true; c_tid4 := false; c_hlen := 23; c_nsizes := 40 |}.
-Definition ex_cfg4 : cfg := {| c_crc := true; c_v2 := false; c_tid4 := true; c_hlen := 19; c_nsizes := 35 |}.
+Definition ex_cfg : cfg := {| c_crc := true; c_v2 := true; c_tid4 := false; c_hlen := 23; c_nsizes := 40; c_pad_cols := 0; c_pad_null := 255; c_pad_tm := 0 |}.
+Definition ex_cfg4 : cfg := {| c_crc := true; c_v2 := false; c_tid4 := true; c_hlen := 19; c_nsizes := 35; c_pad_cols := 255; c_pad_null := 255; c_pad_tm := 255 |}.
 Definition ex_hdr (t : Z) : hdr := {| h_ts := 1700000000; h_type := t; h_sid := 4294967295; h_next := 4096; h_flags := 8 |}.
 Definition ex_vars : list (Z * bytes) :=
   [(0, [0; 0; 0; 0]); (1, [0; 0; 32; 64; 0; 0; 0; 0]); (6, 3 :: str "std"%string); (3, [1; 0; 1; 0]);
